@@ -15,7 +15,8 @@ class C13(core.Prop):
         'random operation sequences (incremental training incl. histories ending in a falsy state such as 0, apply, '
         'hyper-parameter updates, cloudpickle round trips of builders and trained actors, state transfer into a rebuilt twin '
         'with the same or different hyper-parameters - through the actor\'s own set_state and through the compiled state '
-        'preset) on five real actor flavours: native class (default codec), native class with its own parameter-carrying '
+        'preset; one functor object executed repeatedly incl. with an empty state; the exported state loaded into two actors of '
+        'which the first trains on) on six real actor flavours (one with a mutable state updated in place): native class (default codec), native class with its own parameter-carrying '
         'codec, @wrap.Actor.train/.apply functions, wrap.Actor.type with method-name and with callable mapping. '
         'Non-trivial = a sequence with a transfer after at least one training.'
     )
